@@ -151,36 +151,36 @@ def execP (P : Par) (f : Fn) (s : State) (args : List V) : Out :=
 /-! ### rewrite rules for symbolic evaluation -/
 
 theorem bind_norm (l : ID → Nat) (st : State) (env : List (String × V)) (hs : List String) (evs : List Ev) (f : M → Out) :
-    Out.bind l (st, .norm env hs, evs) f = f { st := st, env := env, evs := evs, hs := hs, lenOf := l } := rfl
+    Out.bind l (st, .norm env hs, evs) f = f { st := st, env := env, evs := evs, hs := hs, lenOf := l } := id rfl
 theorem bind_ret (l : ID → Nat) (st : State) (vs : List V) (evs : List Ev) (f : M → Out) :
-    Out.bind l (st, .ret vs, evs) f = (st, .ret vs, evs) := rfl
+    Out.bind l (st, .ret vs, evs) f = (st, .ret vs, evs) := id rfl
 theorem bind_brk (l : ID → Nat) (st : State) (env : List (String × V)) (hs : List String) (evs : List Ev) (f : M → Out) :
-    Out.bind l (st, .brk env hs, evs) f = (st, .brk env hs, evs) := rfl
-theorem bind_panic (l : ID → Nat) (st : State) (evs : List Ev) (f : M → Out) : Out.bind l (st, .panic, evs) f = (st, .panic, evs) := rfl
+    Out.bind l (st, .brk env hs, evs) f = (st, .brk env hs, evs) := id rfl
+theorem bind_panic (l : ID → Nat) (st : State) (evs : List Ev) (f : M → Out) : Out.bind l (st, .panic, evs) f = (st, .panic, evs) := id rfl
 theorem bind_stuck (l : ID → Nat) (st : State) (w : String) (evs : List Ev) (f : M → Out) :
-    Out.bind l (st, .stuck w, evs) f = (st, .stuck w, evs) := rfl
+    Out.bind l (st, .stuck w, evs) f = (st, .stuck w, evs) := id rfl
 theorem bind_ite (l : ID → Nat) (c : Prop) [Decidable c] (a b : Out) (f : M → Out) :
     Out.bind l (if c then a else b) f = if c then Out.bind l a f else Out.bind l b f := by split <;> rfl
 
 theorem next_norm (l : ID → Nat) (st : State) (env : List (String × V)) (hs : List String) (evs : List Ev) (f : M → Out) :
-    Out.next l (st, .norm env hs, evs) f = f { st := st, env := env, evs := evs, hs := hs, lenOf := l } := rfl
+    Out.next l (st, .norm env hs, evs) f = f { st := st, env := env, evs := evs, hs := hs, lenOf := l } := id rfl
 theorem next_brk (l : ID → Nat) (st : State) (env : List (String × V)) (hs : List String) (evs : List Ev) (f : M → Out) :
-    Out.next l (st, .brk env hs, evs) f = (st, .norm env hs, evs) := rfl
+    Out.next l (st, .brk env hs, evs) f = (st, .norm env hs, evs) := id rfl
 theorem next_ret (l : ID → Nat) (st : State) (vs : List V) (evs : List Ev) (f : M → Out) :
-    Out.next l (st, .ret vs, evs) f = (st, .ret vs, evs) := rfl
-theorem next_panic (l : ID → Nat) (st : State) (evs : List Ev) (f : M → Out) : Out.next l (st, .panic, evs) f = (st, .panic, evs) := rfl
+    Out.next l (st, .ret vs, evs) f = (st, .ret vs, evs) := id rfl
+theorem next_panic (l : ID → Nat) (st : State) (evs : List Ev) (f : M → Out) : Out.next l (st, .panic, evs) f = (st, .panic, evs) := id rfl
 theorem next_stuck (l : ID → Nat) (st : State) (w : String) (evs : List Ev) (f : M → Out) :
-    Out.next l (st, .stuck w, evs) f = (st, .stuck w, evs) := rfl
+    Out.next l (st, .stuck w, evs) f = (st, .stuck w, evs) := id rfl
 theorem next_ite (l : ID → Nat) (c : Prop) [Decidable c] (a b : Out) (f : M → Out) :
     Out.next l (if c then a else b) f = if c then Out.next l a f else Out.next l b f := by split <;> rfl
 
 theorem trim_norm (n : Nat) (st : State) (env : List (String × V)) (hs : List String) (evs : List Ev) :
-    Out.trim n (st, .norm env hs, evs) = (st, .norm (env.drop (env.length - n)) hs, evs) := rfl
+    Out.trim n (st, .norm env hs, evs) = (st, .norm (env.drop (env.length - n)) hs, evs) := id rfl
 theorem trim_brk (n : Nat) (st : State) (env : List (String × V)) (hs : List String) (evs : List Ev) :
-    Out.trim n (st, .brk env hs, evs) = (st, .brk (env.drop (env.length - n)) hs, evs) := rfl
-theorem trim_ret (n : Nat) (st : State) (vs : List V) (evs : List Ev) : Out.trim n (st, .ret vs, evs) = (st, .ret vs, evs) := rfl
-theorem trim_panic (n : Nat) (st : State) (evs : List Ev) : Out.trim n (st, .panic, evs) = (st, .panic, evs) := rfl
-theorem trim_stuck (n : Nat) (st : State) (w : String) (evs : List Ev) : Out.trim n (st, .stuck w, evs) = (st, .stuck w, evs) := rfl
+    Out.trim n (st, .brk env hs, evs) = (st, .brk (env.drop (env.length - n)) hs, evs) := id rfl
+theorem trim_ret (n : Nat) (st : State) (vs : List V) (evs : List Ev) : Out.trim n (st, .ret vs, evs) = (st, .ret vs, evs) := id rfl
+theorem trim_panic (n : Nat) (st : State) (evs : List Ev) : Out.trim n (st, .panic, evs) = (st, .panic, evs) := id rfl
+theorem trim_stuck (n : Nat) (st : State) (w : String) (evs : List Ev) : Out.trim n (st, .stuck w, evs) = (st, .stuck w, evs) := id rfl
 theorem trim_ite (n : Nat) (c : Prop) [Decidable c] (a b : Out) :
     Out.trim n (if c then a else b) = if c then Out.trim n a else Out.trim n b := by split <;> rfl
 
